@@ -28,7 +28,7 @@ SmoothStep(j) ==
           \cup Fails(CloseRel(R.out[j], ref, FStr("1e-9"), FAbs(ref), FStr("1e-300")), "WindowShape")
           \cup Fails(FLe(FSub(FMinSeq(a), slack), R.out[j]) /\ FLe(R.out[j], FAdd(FMaxSeq(a), slack)), "Bounded")
 MatrixStep(j) ==
-  LET w == NormWeights(R.freqs, R.targets[j], R.band)  c == R.cols[j]
+  LET w == NormWeights(R.freqs, R.targets[j], R.band)  c == IF Len(R.cols) = Len(R.targets) THEN R.cols[j] ELSE <<>>
   IN IF Len(c) # Len(w) THEN {"Length"}
      ELSE Fails(\A i \in 1..Len(c) : FLe(Zero, c[i]) /\ FIsFinite(c[i]), "WeightsNonNeg")
           \cup Fails(Close(FSum(c), One, FStr("1e-9")), "WeightsNormalised")
